@@ -23,6 +23,7 @@ const (
 type SampleSet struct {
 	Index     int
 	T0, End   int64
+	Seam      int64 // time of the flush between two write requests (0: none): older samples in a file, newer in the memtable
 	Straddle  bool
 	Series    []*SeriesData
 	times     map[int64]struct{} // every sample timestamp of the set
@@ -256,7 +257,7 @@ func genValues(rng *rand.Rand, s *SeriesData) {
 				continue
 			}
 			v += (rng.Float64() - 0.5) * 3
-			s.V[i] = math.Round(v*100) / 100
+			s.V[i] = math.Round(v*100)/100 + 0 // "+ 0": no negative zero (its loss is property C07's finding)
 		}
 		put := func(count int, x float64, name string) {
 			for j := 0; j < count && n > 0; j++ {
